@@ -51,6 +51,23 @@ func foldFieldwiseOnce(info *types.Info, list []ast.Stmt, nested bool) ([]ast.St
 		if u, isU := rhs.(*ast.UnaryExpr); isU && u.Op == token.AND {
 			amp, rhs = u, ast.Unparen(u.X)
 		}
+		// `new(T)` is `&T{}`
+		if c, isCall := rhs.(*ast.CallExpr); isCall && amp == nil && len(c.Args) == 1 {
+			if fid, isID := c.Fun.(*ast.Ident); isID && fid.Name == "new" {
+				if _, isBuiltin := info.Uses[fid].(*types.Builtin); isBuiltin {
+					if ttv, has := info.Types[c.Args[0]]; has && ttv.IsType() {
+						ncl := &ast.CompositeLit{Type: c.Args[0], Lbrace: c.Lparen, Rbrace: c.Rparen}
+						vtv := info.Types[c]
+						ctv := vtv
+						ctv.Type = ttv.Type
+						info.Types[ncl] = ctv
+						nu := &ast.UnaryExpr{OpPos: c.Pos(), Op: token.AND, X: ncl}
+						info.Types[nu] = vtv
+						amp, rhs = nu, ncl
+					}
+				}
+			}
+		}
 		cl, ok := rhs.(*ast.CompositeLit)
 		if !ok || v == nil || len(cl.Elts) != 0 || cl.Type == nil {
 			out = append(out, list[i])
